@@ -304,6 +304,8 @@ class BuiltinMixin:
         k = base.kind
         if k.name == 'emptylist' or k.name == 'emptydict' or k.name == 'emptyset':
             raise Unsupported(f'method {name} on untyped empty literal (add a sort hint)')
+        if k.name in ('ReMatch', 'ReGroupDict'):
+            return self.rematch_method(base, name, args, kw)
         if k.is_list:
             return self.list_method(base, name, args, kw)
         if k.is_set:
@@ -561,22 +563,50 @@ class BuiltinMixin:
             self.raise_(TypeError, 'regex on None')
         if s.kind != STR:
             raise Unsupported(f'regex on {s.kind}')
-        try:
-            r = pm.regex_to_z3(pat.pattern, pat.flags & ~_re.UNICODE, name)
-            matched = z3.InRe(s.t, r)
-        except pm.RegexUnsupported:
-            f = z3.Function(f're_{name}_{abs(hash(pat.pattern)) % 10**8}', z3.StringSort(), B)
-            matched = f(s.t)
-            self.notes['havoc'].add(f'regex {pat.pattern!r} treated as uninterpreted predicate')
+        hook = self.reg.externals.get(('match', pat.pattern))
+        matched = hook(self, 'matched', s, pat, name) if hook is not None else None
+        if matched is None:
+            try:
+                r = pm.regex_to_z3(pat.pattern, pat.flags & ~_re.UNICODE, name)
+                matched = z3.InRe(s.t, r)
+            except pm.RegexUnsupported:
+                import zlib
+                f = z3.Function(f're_{name}_{zlib.crc32(pat.pattern.encode())}', z3.StringSort(), B)
+                matched = f(s.t)
+                self.notes['havoc'].add(f'regex {pat.pattern!r} treated as uninterpreted predicate')
         mk = Kind('ReMatch')
         os_ = sort_of(opt(mk))
         mt = self.p.fresh('match', os_)
         self.p.assume(os_.is_some(mt) == matched)
         v = SV(opt(mk), mt)
-        hook = self.reg.externals.get(('match', pat.pattern))
-        if hook is not None:
-            hook(self, v, s, pat)
-        return self.wf_value(v)
+        self.wf_value(v)
+        self.p.__dict__.setdefault('match_patterns', {})[str(os_.val(mt))] = pat
+        if hook is not None and pat.groupindex:
+            # group values of a successful match (ghost fields g_<name> of the match)
+            obj = SV(mk, os_.val(mt))
+            self.p.solver.push()
+            self.p.solver.pop()
+            hook(self, 'groups', s, pat, name, obj, os_.is_some(mt))
+        return v
+
+    def rematch_method(self, m: SV, name, args, kw):
+        pat = self.p.__dict__.get('match_patterns', {}).get(str(m.t))
+        if pat is None:
+            raise Unsupported('match object of unknown pattern')
+        if name == 'groupdict' and not args:
+            return SV(Kind('ReGroupDict'), m.t)
+        if name in ('group', 'get'):
+            a = self.force(args[0])
+            at = z3.simplify(a.t) if a.kind == STR else None
+            if at is None or not z3.is_string_value(at):
+                raise Unsupported('match group with non-literal name')
+            gname = at.as_string()
+            if gname not in pat.groupindex:
+                if name == 'get':
+                    return args[1] if len(args) > 1 else NONEV
+                self.raise_(IndexError, 'no such group')
+            return self.read_field(SV(Kind('ReMatch'), m.t), 'g_' + gname)
+        raise Unsupported(f'match method {name}')
 
     # ------------------------------------------------------------ comprehensions
     def comprehension_call(self, fn, comp, node):
